@@ -11,3 +11,4 @@ ASSUMPTIONS = [K.A_BYTEORDER, K.A_BYTES, K.A_PRED, K.A_TABLE, "itertools chunks(
 OBLIGATIONS = K.SPANS + [K.OVERLAPS, K.INDEX_PAIRS] + [o for o in K.WRITER_LAYOUT if o.id in ("C09-L3", "C09-L4", "C09-L4c")] + K.CIR_READER
 OBLIGATIONS = OBLIGATIONS + [K.SEARCH_ORDER, K.RTREE_LOOP]
 OBLIGATIONS = OBLIGATIONS + [K.TREE_OFFSETS]
+OBLIGATIONS = OBLIGATIONS + [K.ARG_NAMES]
